@@ -73,7 +73,7 @@ ASSUMPTIONS = [
 
 SETTINGS = {
     # tier: (E2 cases, E3 restart cases, E3 watch cases, max_phases, processes); ENV_MULTI_CASES below
-    "quick": (28, 60, 60, 3, 4),
+    "quick": (22, 60, 60, 3, 4),
     "thorough": (120, 1200, 1200, 5, 8),
 }
 NGLOB_CASES = {"quick": 40, "thorough": 600}
